@@ -469,6 +469,27 @@ def fixed_corpus():
     out.append(Def([L('regex', '(?&letter)+'), L('token', '=')], subpatterns=[('letter', '[a-zα-ωé]')], origin='fixed:subpatterns2'))
     # stack probes: single-character skips, long tokens
     out.append(Def([L('skip', 'x'), L('regex', 'a+'), L('token', 'b'), L('regex', 'c[a-z]*d'), L('regex', 'y', cb=3), L('skip', 'w+', cb=17)], origin='fixed:stack'))
+    # two-byte classes: pairs of isolated bytes at every power-of-two distance, the lower byte with and without that bit set (a pair
+    # that differs in one bit can be tested with a mask; `:`/`Z` are 0x20 apart but differ in more than bit 5).  One edge per state
+    # (if-chain rendering), two pairs per state, and the same pairs in a self loop (fast-loop rendering).
+    pairs = []
+    for k in range(7):
+        d = 1 << k
+        lo_clear = next(b for b in range(0x30, 0x7a - d) if not b & d and chr(b).isalnum() and chr(b + d).isalnum())
+        lo_set = next((b for b in range(0x21, 0x7e - d) if b & d and (b + d) < 0x7f and chr(b) not in '\\[]^-' and chr(b + d) not in '\\[]^-'), None)
+        pairs.append((lo_clear, lo_clear + d))
+        if lo_set is not None:
+            pairs.append((lo_set, lo_set + d))
+    pairs += [(0x3a, 0x5a), (0x3f, 0x5f), (0x20, 0x40), (0x2e, 0x4e)]     # ':'/'Z', '?'/'_', ' '/'@', '.'/'N'
+    def cls(p):
+        return '[' + ''.join('\\x%02x' % b for b in p) + ']'
+    lead = 'abcdefghijklmnopqrstuvwxyz'
+    for part in range(0, len(pairs), 9):
+        chunk = pairs[part:part + 9]
+        out.append(Def([L('regex', '%s%s%s' % (lead[i], lead[i], cls(p))) for i, p in enumerate(chunk)] +
+                       [L('regex', '[0-9]+' + cls(chunk[0])), L('regex', '[0-9]+', prio=1), L('skip', '~+')], origin='fixed:pair-classes%d' % (part // 9)))
+        out.append(Def([L('regex', '%s%s+;' % (lead[i], cls(p))) for i, p in enumerate(chunk[:5])], origin='fixed:pair-loops%d' % (part // 9)))
+    out.append(Def([L('regex', '(?-u)x[\\x41\\xc1]'), L('regex', '(?-u)y[\\x7f\\xff]'), L('regex', '(?-u)z[\\x00\\x80]+!'), L('regex', '(?-u)w[\\x5a\\xda]')], utf8=False, origin='fixed:pair-classes-bytes'))
     # nested repetitions (exponential for backtrackers)
     out.append(Def([L('regex', '(a+)+b'), L('regex', '(a|aa)+c'), L('regex', '(a*)*d')], origin='fixed:nested'))
     FIXED.extend(out)
